@@ -9,10 +9,17 @@ SPEC = dict(
     rule="a real QXmppClient (default extensions, one object kept across attempts) connects over loopback TCP to an in-process "
          "scripted QSslSocket server driven by a protocol-conforming responder (it answers what the client actually asked: "
          "<proceed/>, SASL success/challenge, SASL2 success with bound/resumed, bind result, <enabled/>, <resumed/>/<failed/>, "
-         "XEP-0078 fields/result) under 14 policies {SASL PLAIN|SCRAM + bind, STARTTLS first, SASL2+bind2 with inline SM, SASL2 + "
-         "classic bind, legacy auth, SM none|enabled|resumable, resumption accepted|refused, see-other-host early / after STARTTLS / "
-         "inside an established session (second local listener)}. (1) every policy x EVERY cut point (server closes after k "
-         "elements, k=0..len) followed by a full attempt, for 3 configurations; (2) ordered pairs of different policies x cut "
+         "XEP-0078 fields/result) under 17 policies {SASL PLAIN|SCRAM + bind, STARTTLS first, SASL2+bind2 with inline SM, SASL2 + "
+         "classic bind, legacy auth (pre-1.0 header / as stream feature), SM none|enabled|resumable, resumption accepted|refused, "
+         "see-other-host early / after STARTTLS / inside an established session (second local listener), header + features pipelined in "
+         "ONE segment}. (0) 24 incidents, each followed by a full conforming attempt that must connect: authentication failure "
+         "(plain / over TLS), bind error, <failure/> to starttls, failed TLS handshake (TLS required / optional), stream error + "
+         "</stream:stream> in one segment (negotiation / session / resumable session), see-other-host + </stream:stream> in ONE segment "
+         "(session, resumable session, over TLS, during negotiation - the client continues on the second listener), cut in the MIDDLE of an "
+         "element (half an element in the read buffer; session / negotiation / over TLS), TCP reset instead of orderly close (session, "
+         "negotiation, TLS, with half an element buffered), white space keep-alive inside a session. (1) every policy x EVERY cut point "
+         "(server closes after k elements, k=0..len) followed by a full attempt, for 4 configurations (TLS enabled, + CSI inactive, TLS "
+         "disabled without SASL2, TLS REQUIRED for the STARTTLS policies); (2) ordered pairs of different policies x cut "
          "points, half of them followed by a third attempt (all pairs in thorough, a seeded quarter in quick); an application "
          "request (sendIq) is outstanding at the cut of an established session. Every op gives one line comparing ordered "
          "sends/signals + state(), isConnected(), isAuthenticated(), encrypted between client and Lean model. Oracles (model "
@@ -31,12 +38,25 @@ SPEC = dict(
     ],
     assumptions=[
         "the application calls connectToServer only while disconnected; automatic reconnection (a timer in QXmppClient) is disabled and not modelled",
-        "DNS/SRV address lists and the TryNext branch of _q_socketDisconnected are not exercised (explicit host/port) and not modelled",
+        "OUT OF MODEL AND HARNESS: DNS/SRV address lists and the TryNext branch of _q_socketDisconnected (explicit host/port, one address; "
+        "the address-list indices have no model field), the resume location of <enabled location=…/> (m_resumeHost/Port: the responder never "
+        "sends a location), carbons (m_enabled/m_requested), FAST m_tokenChanged, streamFrom, authenticationMethod (no model field; "
+        "per_connection_reset says nothing about them), timers (keep-alive ping, reconnection)",
+        "reads: one element per read, or the listed multi-element segments (header+features, header+stanza, stream error+close); elements that "
+        "follow, in the same read, an element on which the client disconnects are not modelled; a cut in the middle of an element is modelled "
+        "as 'half an element buffered, then loss' (the buffer content itself is not modelled: resetIncomingState() is exercised, its effect on "
+        "later parsing is only checked by the next attempt having to succeed)",
         "bindAvail/smAvail/csiAvail are not reset per connection by the code; they are overwritten by the next features element before use "
         "(read by inspection and confirmed by the correspondence runs, not a theorem)",
-        "'next attempt succeeds' is ONE theorem over the type Flow of conforming scripts (SASL PLAIN, SCRAM incl. server signature, SASL2+bind2, "
-        "SASL2+FAST token, legacy; with/without STARTTLS; classic bind + <enable/>; <resume/> accepted; <resume/> refused then bind + <enable/>; "
-        "see-other-host then full flow) after ANY history, with 'connected exactly once, by the last element, nothing reported at any cut point'",
+        "'next attempt succeeds' is ONE theorem over the inductive type Flow = 11 NAMED conforming scripts (SASL PLAIN, SCRAM incl. server "
+        "signature, SASL2+bind2, SASL2+FAST token, legacy; with/without STARTTLS; classic bind + <enable/>; <resume/> accepted; <resume/> refused "
+        "then bind + <enable/>; see-other-host then full flow), each after ANY history, with 'connected exactly once, by the last element, "
+        "nothing reported at any cut point'. It is NOT a theorem about every conforming flow: the product {tls?} x {sasl|sasl2|legacy|legacy-"
+        "feature} x {bind|bind2} x {sm none|enable|resume ok|resume refused} x {csi?} x {redirect?} has more members (e.g. STARTTLS + SCRAM + "
+        "resume refused, legacy-as-feature, redirect over TLS); those are covered by the harness policies (17) only",
+        "per_connection_reset covers the 12 negotiation fields of negView (listener, streamIdSet, streamVersionSet, encrypted, headerSeen, wedged, "
+        "authenticated, sessionStarted, smEnabled, smResumed, ackEnabled, redirect) + bind2Bound; NOT csiAvail/"
+        "bindAvail/smAvail (separate theorem avail_fields_written_before_use) and not the C++ state without a model field listed above",
         "'connected at most once per connection' needs one conformance hypothesis: the server sends neither a stream header nor features into an "
         "established session (without it the property is false: openSession is not guarded, its Q_ASSERT is compiled out in release builds)",
         "'isConnected() means a session was established on this connection' holds for every history; 'isConnected() implies authenticated' is "
@@ -49,16 +69,18 @@ SPEC = dict(
         "fields are not modified while the client stays in those listeners is by inspection of the model (they only change the listener)",
     ],
     level_text="Theorems quantified over every history (all event scripts of any length): the cut leaves disconnected/no session/not "
-               "authenticated with exactly one disconnected signal; outstanding requests are finished unless resumable; EVERY negotiation "
-               "field (bind2 result included) is back to its initial value after cut+reconnect; four conforming flows reach connected after "
-               "any history; connected is reported at most once per step and only by a step that leaves the listener idle, the session flag "
+               "authenticated with exactly one disconnected signal; outstanding requests are finished unless resumable; the 12 negotiation "
+               "fields of the model + the bind2 result are back to their initial values after cut+reconnect; each of 11 named conforming flows "
+               "reaches connected after any history; connected is reported at most once per step and only by a step that leaves the listener idle, the session flag "
                "set and the socket connected; isConnected() implies that the last session signal was connected and the session flag is never "
                "set without a connected socket; for every history of a server that does not restart negotiation inside a session no two "
                "connected are reported without a disconnected (socket loss) in between; every cut point of the SASL+bind flow reports "
                "nothing until the last element.",
     level_note="Proved about the hand-written model; model-to-code tie is differential (every policy x every cut point, pairs and triples "
                "of attempts). The four former findings (legacy login, bind2Bound leak, see-other-host inside a session / over TLS) are fixed "
-               "in the tree (7771c2d, 7a677f2, e363fe9); their witnesses are replayed first.",
+               "in the tree (7771c2d, 7a677f2, e363fe9, 7c60ff5, a739aa9); their witnesses are replayed first. OPEN finding (runtime + model): a white "
+               "space keep-alive ends the connection ('Unexpected element received.') even inside an established session - "
+               "C10:whitespace-keepalive-ends-connection, fix fixes/C10-whitespace-keepalive.diff.",
     design_ref="5.10",
     technique="Lean 4 proofs over all event histories + model/implementation correspondence against a scripted, cut-at-every-point server",
 )
